@@ -4,8 +4,9 @@ import Martian.Vdr
 Path normalisation and symbolic links as the VDR code sees them:
 `filepath.Clean` on rooted paths, `pathIsInside` on uncleaned arguments, and
 `getLogicalFileNames` (the name, its cleaned form, the fully resolved name and
-every hop of the symlink chain) over a small file-system model in which
-parent directories are not themselves symlinks.
+every hop of the symlink chain) over a small file-system model: a list of
+entries at their real locations, some of them links — also links to
+directories, so that a path may lead through linked parent components.
 -/
 namespace Martian.Vdr
 
@@ -55,18 +56,37 @@ structure FsEnt where
 
 def fsFind (fs : List FsEnt) (p : Path) : Option FsEnt := fs.find? (fun e => e.path == p)
 
-/-- where the chain of links starting at `p` ends (`EvalSymlinks` when no parent directory is a link) -/
-def resolveEnd (fs : List FsEnt) : Nat → Path → Option Path
-  | 0, _ => none
-  | fuel + 1, p =>
-    match fsFind fs p with
+/-- the components of a rooted path after cleaning -/
+def compsOf (p : Path) : List Path := cleanComps [] (splitSlash p)
+
+def joinRoot (cs : List Path) : Path := if cs.isEmpty then ['/'] else joinComps cs
+
+/-- `filepath.EvalSymlinks`: resolve the components left to right; a link is
+replaced by its (cleaned) destination and resolution starts over.  `res` are
+the components already known to be real directories. -/
+def evalFrom (fs : List FsEnt) : Nat → List Path → List Path → Option Path
+  | 0, _, _ => none
+  | _ + 1, res, [] => some (joinRoot res)
+  | fuel + 1, res, c :: rest =>
+    match fsFind fs (joinComps (res ++ [c])) with
     | none => none
     | some e =>
       match e.link with
-      | none => some p
-      | some dest =>
-        let d := if isAbs dest then cleanAbs dest else cleanAbs (dirOf p ++ ['/'] ++ dest)
-        resolveEnd fs fuel d
+      | none => evalFrom fs fuel (res ++ [c]) rest
+      | some raw =>
+        let t := if isAbs raw then cleanAbs raw else cleanAbs (joinComps res ++ ['/'] ++ raw)
+        evalFrom fs fuel [] (compsOf t ++ rest)
+
+def evalSymlinks (fs : List FsEnt) (p : Path) : Option Path := evalFrom fs 200 [] (compsOf p)
+
+/-- `os.Lstat` / `os.Readlink`: parent components are resolved, the last one is not -/
+def lfind (fs : List FsEnt) (p : Path) : Option FsEnt :=
+  match (compsOf p).reverse with
+  | [] => fsFind fs ['/']
+  | last :: revInit =>
+    match evalFrom fs 200 [] revInit.reverse with
+    | none => none
+    | some d => fsFind fs (if d == ['/'] then '/' :: last else d ++ '/' :: last)
 
 /-- the destination of a link as the loop uses it (relative ones are joined
 to the directory and cleaned, absolute ones are kept as written) -/
@@ -83,7 +103,7 @@ result so far (also the seen set, once the loop has started) -/
 def chase (fs : List FsEnt) : Nat → Path → List Path → List Path
   | 0, _, names => names
   | fuel + 1, name, names =>
-    match fsFind fs name with
+    match lfind fs name with
     | none => names
     | some e =>
       match e.link with
@@ -92,20 +112,34 @@ def chase (fs : List FsEnt) : Nat → Path → List Path → List Path
         if (addClean names raw).contains (linkDest name raw) then addClean names raw
         else
           -- Lstat(dest) is done on the uncleaned name; the model's entries are clean
-          match fsFind fs (cleanAbs (linkDest name raw)) with
+          match lfind fs (cleanAbs (linkDest name raw)) with
           | none => addClean names raw ++ [linkDest name raw]
           | some _ => chase fs fuel (cleanAbs (linkDest name raw)) (addClean names raw ++ [linkDest name raw])
 
 /-- `getLogicalFileNames` -/
 def logicalNames (fs : List FsEnt) (name : Path) : List Path :=
-  match fsFind fs (cleanAbs name) with
+  match lfind fs (cleanAbs name) with
   | none => []
   | some _ =>
     let names := [name]
     let names := if cleanAbs name != name then names ++ [cleanAbs name] else names
-    let names := match resolveEnd fs 40 (cleanAbs name) with
+    let names := match evalSymlinks fs (cleanAbs name) with
       | some r => if r != cleanAbs name then names ++ [r] else names
       | none => names
     chase fs 40 (cleanAbs name) names
+
+/-- no symbolic link of the file system is a proper ancestor of `p`: every
+parent component of `p` is a real directory, so the operating system acts on
+`p` where it is written -/
+def ParentsReal (fs : List FsEnt) (p : Path) : Prop :=
+  ∀ e ∈ fs, e.link ≠ none → ¬ ((e.path ++ ['/']) <+: p)
+
+/-- where an operation on `p` acts when the link `e` is a parent component of
+`p` (the kernel resolves parent links; the last component is not followed by
+`os.RemoveAll`) -/
+def throughLink (e : FsEnt) (p : Path) : Path :=
+  match e.link with
+  | some t => if (e.path ++ ['/']).isPrefixOf p then t ++ p.drop e.path.length else p
+  | none => p
 
 end Martian.Vdr
